@@ -238,7 +238,7 @@ func TestC12Takeover(t *testing.T) {
 				w.DeliverAll(false)
 				Observe(w, rep)
 				for _, n := range w.Nodes {
-					md, err := n.DState.SessionMetadatas().ByClientID("X")
+					md, err := n.DState.SessionMetadatas().ByClientIDInMountPoint("_default", "X")
 					if err != nil {
 						viol("c12-client-id-unresolved", "after all gossip was delivered node %d resolves client id X to nothing (%v); view %s", n.ID, err, n.View())
 						return
